@@ -5,6 +5,7 @@ import (
 	"github.com/gobuffalo/plush/v5"
 	"html/template"
 	"strings"
+	"time"
 )
 
 // ---- C01: strings are always escaped, trusted HTML verbatim exactly once --------
@@ -43,6 +44,8 @@ type c01hold struct {
 	N *c01ph
 	V c01both
 }
+
+var c01time = time.Date(2020, 3, 4, 5, 6, 7, 0, time.UTC)
 
 type route struct {
 	pre  string // statements before the output position
@@ -219,7 +222,7 @@ func init() {
 			pg := c01page{Body: template.HTML(p), Title: p, Role: c01role(p)}
 			extra := map[string]interface{}{"pg": pg, "ppg": &pg, "pgs": []c01page{pg}, "pgm": map[string]c01page{"k": pg}, "pgi": []interface{}{pg, &pg},
 				"hold": c01hold{H: &c01ph{p}, S: &c01ps{p}, V: c01both{p}}, "phold": &c01hold{H: &c01ph{p}, S: &c01ps{p}}, "holds": []c01hold{{H: &c01ph{p}}}, "pth": &c01ph{p},
-				"sr": c01strer{p}, "psr": &c01strer{p}, "srs": []interface{}{c01strer{p}}, "both": c01both{p}, "ps": p}
+				"tm": c01time, "ptm": &c01time, "sr": c01strer{p}, "psr": &c01strer{p}, "srs": []interface{}{c01strer{p}}, "both": c01both{p}, "ps": p}
 			esc := template.HTMLEscapeString(p)
 			for _, t := range []struct{ tmpl, want string }{
 				{"[[<%= pg.Body %>]]", p}, {"[[<%= ppg.Body %>]]", p}, {"[[<%= pgs[0].Body %>]]", p}, {"[[<%= pgm[\"k\"].Body %>]]", p},
@@ -231,6 +234,9 @@ func init() {
 				// trusted HTML (and a Stringer) reached through a pointer-typed struct field: the pointer has the method
 				{"[[<%= hold.H %>]]", p}, {"[[<%= phold.H %>]]", p}, {"[[<%= hold.S %>]]", esc}, {"[[<%= phold.S %>]]", esc}, {"[[<%= hold.N %>]]", ""}, {"[[<%= hold.V %>]]", p},
 				{"[[<%= holds[0].H %>]]", p}, {"[[<%= for (x) in holds { %><%= x.H %><% } %>]]", p}, {"<% let q = hold.H %>[[<%= q %>]]", p}, {"[[<%= pth %>]]", p},
+				// a time printed with a layout that came from string data: the layout's text is text
+				{"<% let TIME_FORMAT = ps %>[[<%= tm %>]]", template.HTMLEscapeString(c01time.Format(p))}, {"<% let TIME_FORMAT = ps %>[[<%= ptm %>]]", template.HTMLEscapeString(c01time.Format(p))},
+				{"<% let TIME_FORMAT = \"<2006>\" %>[[<%= for (x) in [tm] { %><%= x %><% } %>]]", "&lt;2020&gt;"},
 				{"[[<%= both %>]]", p}, {"<% let q = both %>[[<%= q %>]]", p},
 				// debug / inspect print data: only the pre tags are markup
 				{"[[<%= debug(ps) %>]]", "<pre>" + esc + "</pre>"}, {"[[<%= debug(sr) %>]]", "<pre>" + template.HTMLEscapeString(fmt.Sprintf("%+v", c01strer{p})) + "</pre>"},
